@@ -30,7 +30,7 @@ if os.path.exists('/verif/tools/hook_commits.txt'):
 m = {"version": 1,
      "setup_cmd": "sh /verif/setup.sh",
      "hooks": {"guard": "verif",
-               "enable": "contract files <pkg>/contracts_verif.go are '//go:build verif'; govc loads /repo with -tags=verif (files missing from /repo are supplied from /verif/contracts through the loader overlay)",
+               "enable": "the contract files <pkg>/contracts*_verif.go (comment-only //@ contracts plus small proof-harness functions) are '//go:build verif' and are mirrored into /repo by the hook commit(s) listed under source_commits (sh /verif/tools/sync_hooks.sh); govc loads /repo with -tags=verif; /verif/contracts is the maintained copy: a repository copy that is missing or differs is replaced through the loader overlay and the fact is listed in the evidence assumptions",
                "baseline_off_cmd": base, "source_commits": hooks_commits, "add_only": True},
      "engines": [{"name": "govc", "path": "/verif/govc", "serves_properties": sorted(CLAIMED),
                   "kind_free_text": "VC generator for Go (go/ssa -> SMT-LIB) with Gobra-style comment contracts, solver race, counterexample replay through go test -overlay"}],
